@@ -272,6 +272,80 @@ Theorem C02_check_dh_sound : forall tol life k fp demand geo ng utils util ann_n
 Proof. exact check_dh_sound. Qed.
 Print Assumptions C02_check_dh_sound.
 
+(* ---- round 2: the conversion-efficiency / reinjection-temperature correlations inside the model ---- *)
+
+(* the interpolation weights (1 - f) and f sum to 1; with f in [0,1] the blend lies between the two limits *)
+Theorem C02_corr_weights : forall tf x y,
+  blend tf x x == x /\ blend tf x y == x + tf * (y - x) /\
+  (0 <= tf <= 1 -> Qmin x y <= blend tf x y <= Qmax x y).
+Proof. exact blend_weights. Qed.
+Print Assumptions C02_corr_weights.
+
+Theorem C02_corr_fraction_range : forall amb, 5 <= amb -> amb < 25 -> 0 <= tfraction amb /\ tfraction amb < 1.
+Proof. exact tfraction_range. Qed.
+Print Assumptions C02_corr_fraction_range.
+
+(* continuity at the bracket boundary: at 15 degC ambient the <15 bracket and the >=15 bracket of all four plant types
+   give the same utilization efficiency and the same reinjection temperature, for every entering temperature *)
+Theorem C02_corr_continuous : forall p T,
+  etau_bracket p true 15 T == etau_bracket p false 15 T /\ reinj_bracket p true 15 T == reinj_bracket p false 15 T.
+Proof. exact corr_continuous. Qed.
+Print Assumptions C02_corr_continuous.
+
+Theorem C02_corr_bracket : forall p amb T,
+  etau_at p amb T = etau_bracket p (is_low amb) amb T /\ reinj_at p amb T = reinj_bracket p (is_low amb) amb T.
+Proof. exact corr_at_bracket. Qed.
+Print Assumptions C02_corr_bracket.
+
+(* the injection-temperature update: never raised, never above any reinjection temperature *)
+Theorem C02_tinj_update : forall tinj reinj t',
+  tinj_update tinj reinj = Some t' ->
+  t' <= tinj /\ (forall r, In r reinj -> t' <= r) /\ (t' == tinj \/ In t' reinj \/ exists r, In r reinj /\ t' == r).
+Proof. exact tinj_update_spec. Qed.
+Print Assumptions C02_tinj_update.
+
+(* the power-plant part of Calculate for the four plant types x every end-use option, every step of every series:
+   electricity = availability x etau x wells x flow (x (1 - chp_fraction) in the parallel cycle) with the MODELLED etau,
+   extracted heat with the updated injection temperature, the balance, and for the topping cycle useful heat and heat
+   towards electricity split at the MODELLED reinjection temperature (no recourse to Net / FirstLawEfficiency) *)
+Theorem C02_power_plant : forall p eu amb avail n m cp tprod tinj tchp eff chpf tinj' etau reinj o,
+  power_plant p eu amb avail n m cp tprod tinj tchp eff chpf = Ok (tinj', etau, reinj, o) ->
+  tinj' <= tinj /\ length (o_he o) = length tprod /\
+  forall t, (t < length tprod)%nat ->
+    let T := match eu with EU_BOT => tchp | _ => nth t tprod 0 end in
+    nth t etau 0 = etau_at p amb T /\ nth t reinj 0 = reinj_at p amb T /\ tinj' <= reinj_at p amb T /\
+    nth t (o_he o) 0 == n * m * cp * (nth t tprod 0 - tinj') / 1000000 /\
+    match eu with
+    | EU_ELEC => arr_at (o_hete o) t == nth t (o_he o) 0
+    | EU_HEAT => True
+    | _ => ~ eff == 0 -> arr_at (o_hete o) t + nth t (o_hp o) 0 / eff == nth t (o_he o) 0
+    end /\
+    ((t < length avail)%nat ->
+     nth t (o_el o) 0 == nth t avail 0 * etau_at p amb T * n * m * match eu with EU_PAR => 1 - chpf | _ => 1 end) /\
+    (eu = EU_TOP ->
+     nth t (o_hp o) 0 == eff * (n * m * cp * (reinj_at p amb (nth t tprod 0) - tinj') / 1000000) /\
+     arr_at (o_hete o) t == n * m * cp * (nth t tprod 0 - reinj_at p amb (nth t tprod 0)) / 1000000).
+Proof. exact power_plant_spec. Qed.
+Print Assumptions C02_power_plant.
+
+Theorem C02_topping_heat_nonneg : forall p amb avail n m cp tprod tinj tchp eff chpf tinj' etau reinj o t,
+  power_plant p EU_TOP amb avail n m cp tprod tinj tchp eff chpf = Ok (tinj', etau, reinj, o) ->
+  0 <= eff -> 0 <= n -> 0 <= m -> 0 <= cp -> (t < length tprod)%nat -> 0 <= nth t (o_hp o) 0.
+Proof. exact topping_heat_nonneg. Qed.
+Print Assumptions C02_topping_heat_nonneg.
+
+Theorem C02_check_power_plant_sound : forall tol p eu amb avail n m cp tprod tinj tchp eff chpf tpp el he hp,
+  check_power_plant tol p eu amb avail n m cp tprod tinj tchp eff chpf tpp el he hp = true ->
+  exists tinj' etau reinj o,
+    power_plant p eu amb avail n m cp tprod tinj tchp eff chpf = Ok (tinj', etau, reinj, o) /\
+    approx tol tinj' tinj /\
+    length el = length (o_el o) /\ length he = length (o_he o) /\ length hp = length (o_hp o) /\
+    (forall t, (t < length (o_el o))%nat -> approx tol (nth t (o_el o) 0) (nth t el 0)) /\
+    (forall t, (t < length (o_he o))%nat -> approx tol (nth t (o_he o) 0) (nth t he 0)) /\
+    (forall t, (t < length (o_hp o))%nat -> approx tol (nth t (o_hp o) 0) (nth t hp 0)).
+Proof. exact check_power_plant_sound. Qed.
+Print Assumptions C02_check_power_plant_sound.
+
 (* every end-use option that exists in the current source (table regenerated on each run) has a branch in the model *)
 Theorem C02_enduse_table_covered : forall c, In c enduse_codes -> exists eu, enduse_of_code c = Some eu.
 Proof. exact (covers_enduse_sound enduse_codes eq_refl). Qed.
@@ -320,3 +394,15 @@ Example C02_ex_checkers :
   check_annual (1 # 1000000000) [5; 4; 3; 2] 2 2 (9#10) [0; 0] [31536000; 19710001] = false /\
   check_remaining (1 # 1000000000) 300 [500000000; 400000000] [2982 # 10; 29676 # 100] = true.
 Proof. repeat split; vm_compute; reflexivity. Qed.
+
+(* subcritical ORC at 15 degC ambient, 150 degC entering: etau = 2.713e-3 x 150 - 9.1841e-2, ReinjTemp = 0.0894 x 150 + 62.6;
+   the user's 80 degC injection temperature is lowered to the reinjection temperature 76.01 *)
+Example C02_ex_power_plant :
+  exists tinj' etau reinj o,
+    power_plant P_SUBORC EU_TOP 15 [1 # 10] 2 50 4000 [150] 80 120 (9 # 10) (1 # 2) = Ok (tinj', etau, reinj, o) /\
+    nth 0 etau 0 == 315109 # 1000000 /\ nth 0 reinj 0 == 7601 # 100 /\ tinj' == 7601 # 100 /\
+    nth 0 (o_el o) 0 == (1 # 10) * (315109 # 1000000) * 100 /\ nth 0 (o_hp o) 0 == 0.
+Proof. do 4 eexists. split. vm_compute. reflexivity. repeat split; vm_compute; reflexivity. Qed.
+
+Example C02_ex_corr_blend : etau_at P_SFLASH 10 200 == (etau_bracket P_SFLASH true 5 200 + etau_bracket P_SFLASH true 15 200) / 2.
+Proof. vm_compute. reflexivity. Qed.
